@@ -43,6 +43,7 @@ type Solver struct {
 	Restarts int
 	wd       *time.Timer
 	dead     bool
+	Flat     bool // one-shot use: assertions without push/pop (the solver runs its full, non-incremental pipeline)
 }
 
 func NewSolver(b *Builder, kind string, timeoutS int) (*Solver, error) {
@@ -237,7 +238,9 @@ func (s *Solver) sync(pc []*Term) {
 	}
 	for _, c := range pc[n:] {
 		nm := s.name(c)
-		s.send("(push 1)")
+		if !s.Flat {
+			s.send("(push 1)")
+		}
 		s.send("(assert " + nm + ")")
 		s.stack = append(s.stack, c)
 	}
@@ -310,9 +313,11 @@ func (s *Solver) Check(pc []*Term, extra *Term) Result {
 	s.sync(pc)
 	if extra != nil {
 		nm := s.name(extra)
-		s.send("(push 1)")
+		if !s.Flat {
+			s.send("(push 1)")
+			s.inQuery = true
+		}
 		s.send("(assert " + nm + ")")
-		s.inQuery = true
 	}
 	s.send("(check-sat)")
 	lines := s.readUntilMarker()
@@ -481,4 +486,23 @@ func evalRat(e interface{}) (*big.Rat, bool, bool) {
 		}
 	}
 	return nil, false, false
+}
+
+// Script renders pc ∧ extra as a self-contained SMT-LIB script (debugging aid).
+func Script(b *Builder, pc []*Term, extra *Term) string {
+	var sb strings.Builder
+	rec := &Solver{b: b, defined: map[int]bool{}, declared: map[string]bool{}}
+	w := bufio.NewWriter(&sb)
+	rec.in = w
+	for _, c := range pc {
+		nm := rec.name(c)
+		rec.send("(assert " + nm + ")")
+	}
+	if extra != nil {
+		nm := rec.name(extra)
+		rec.send("(assert " + nm + ")")
+	}
+	rec.send("(check-sat)")
+	w.Flush()
+	return sb.String()
 }
